@@ -1402,6 +1402,12 @@ class ServiceClass:
             #   a valid status type
             rsp.Status = 0xC002
 
+        if not isinstance(rsp.Status, int) or not 0 <= rsp.Status <= 0xFFFF:
+            LOGGER.error("Invalid status value returned by callback")
+            # Failure: Cannot Understand - the value can't be encoded as the
+            #   (0000,0900) Status element
+            rsp.Status = 0xC002
+
         if not self.is_valid_status(cast(int, rsp.Status)):
             # Failure: Cannot Understand - Unknown status returned by the
             #   callback
@@ -1504,6 +1510,12 @@ class VerificationServiceClass(ServiceClass):
                 raise TypeError(
                     "Invalid 'status' returned by the handler bound to "
                     "'evt.EVT_C_ECHO'"
+                )
+
+            if not 0 <= cast(int, rsp.Status) <= 0xFFFF:
+                raise ValueError(
+                    "The 'status' value returned by the handler bound to "
+                    "'evt.EVT_C_ECHO' must be in the range 0 to 65535"
                 )
 
         except Exception as ex:
